@@ -472,6 +472,14 @@ impl<'a> FnTr<'a> {
                         }
                     }
                     let (term, ty) = self.ex(&init.expr, env, &mut st, expect.clone())?;
+                    // builder D2: an untyped literal bound by a `let` is an `Int` (Lean would elaborate a bare `1` as a
+                    // `Nat`, which does not type-check once the variable is carried through a loop); only in units
+                    // with a generator, so that the earlier units keep their text
+                    let term = if ty == Ty::IntLit && self.reg.structs.contains_key("RNG") && term.chars().all(|c| c.is_ascii_digit()) {
+                        format!("({} : Int)", term)
+                    } else {
+                        term
+                    };
                     let ty = match (&ty, &expect) {
                         (Ty::IntLit, Some(e)) => e.clone(),
                         (Ty::IntLit, None) => Ty::Int("i32"),
@@ -1764,6 +1772,10 @@ impl<'a> FnTr<'a> {
     pub fn function(&mut self, sig: &Signature, body: &Block, lean_name: &str) -> Res<(String, FnSig)> {
         // builder P: inside a non-`Result` function translated while the I/O mode is on (`C::ramp_value`), checked
         // primitives stay in `Option` (they are lifted where the I/O action calls the function)
+        // builder D2: source-level desugaring of `for x in slice { if c { return v; } }` and of
+        // `match (a, x.cmp(&y)) { (P, Ordering::Less) => A, _ => B }` (see `desugar_d2`)
+        let body_d2 = desugar_d2(body);
+        let body = &body_d2;
         let io_fn = self.reg.io.borrow().mode && crate::phyio::is_io_fn(sig);
         let was = self.reg.io.borrow().in_pure;
         self.reg.io.borrow_mut().in_pure = !io_fn;
@@ -3085,7 +3097,7 @@ impl<'a> FnTr<'a> {
             }
         }
         // builder N: `T::default()` of a modelled struct that derives `Default`
-        if segs.len() >= 2 && segs[segs.len() - 1] == "default" && c.args.is_empty() {
+        if segs.len() >= 2 && segs[segs.len() - 1] == "default" && c.args.is_empty() && !self.reg.fns.contains_key(&format!("{}::default", segs[segs.len() - 2])) {
             let tn = segs[segs.len() - 2].clone();
             if let Some(fields) = self.reg.structs.get(&tn).cloned() {
                 let files = self.reg.files.clone().ok_or("default(): no files")?;
@@ -3516,6 +3528,22 @@ impl<'a> FnTr<'a> {
                     Ty::Opt(inner) => Ok((format!("(List.filterMap id {})", paren(&r)), Ty::Arr(inner.clone()))),
                     _ => unreachable!(),
                 },
+                // builder D2: `.iter().any(|x| pure-bool)` on a slice (also what `for x in slice { if c { return v; } }`
+                // desugars to)
+                "any" => {
+                    let cl = match m.args.first() {
+                        Some(Expr::Closure(cl)) if cl.inputs.len() == 1 => cl,
+                        _ => return Err("any: argument is not a one-parameter closure".into()),
+                    };
+                    let mut env_c = env.clone();
+                    let pn = self.pat(&cl.inputs[0], el, &mut env_c)?;
+                    let mut cst = vec![];
+                    let (ct, cty) = self.ex(&cl.body, &mut env_c, &mut cst, Some(Ty::Bool))?;
+                    if !cst.is_empty() || cty != Ty::Bool {
+                        return Err("any: closure body must be a pure bool expression".into());
+                    }
+                    Ok((format!("(List.any {} (fun {} => {}))", paren(&r), pn, ct), Ty::Bool))
+                }
                 "find" => {
                     let cl = match m.args.first() {
                         Some(Expr::Closure(cl)) if cl.inputs.len() == 1 => cl,
@@ -4015,4 +4043,109 @@ pub fn find_inherent_method<'f>(files: &'f [File], tn: &str, name: &str) -> Opti
         None
     }
     files.iter().find_map(|f| walk(&f.items, tn, name))
+}
+
+/// builder D2: two source-level rewrites applied to every function body before it is translated.  Both are exact
+/// for the shapes they accept and leave every other shape alone (which then fails loudly as before):
+/// * `for PAT in E { if C { return V; } }` (nothing else in the body, `E` not a range) becomes
+///   `if (E).iter().any(|PAT| C) { return V; }` — `any` visits the elements in the same order and stops at the first
+///   hit; the translation of `any` insists that `C` is a pure boolean expression;
+/// * `match (A, X.cmp(&Y)) { (P, Ordering::Less|Equal|Greater) => B1, _ => B2 }` with `A`, `X`, `Y` places (paths and
+///   field accesses: no effects, so the order of evaluation is immaterial) becomes
+///   `if let P = A { if X < Y { B1 } else { B2 } } else { B2 }`.
+fn desugar_d2(b: &Block) -> Block {
+    use syn::visit_mut::VisitMut;
+    fn is_place(e: &Expr) -> bool {
+        match e {
+            Expr::Path(_) => true,
+            Expr::Field(f) => is_place(&f.base),
+            Expr::Paren(p) => is_place(&p.expr),
+            Expr::Reference(r) => r.mutability.is_none() && is_place(&r.expr),
+            _ => false,
+        }
+    }
+    fn for_return_any(f: &ExprForLoop) -> Option<Stmt> {
+        if f.label.is_some() || matches!(&*f.expr, Expr::Range(_)) || f.body.stmts.len() != 1 {
+            return None;
+        }
+        let i = match &f.body.stmts[0] {
+            Stmt::Expr(Expr::If(i), _) if i.else_branch.is_none() && !matches!(&*i.cond, Expr::Let(_)) => i,
+            _ => return None,
+        };
+        if contains_return(&i.cond) || i.then_branch.stmts.len() != 1 {
+            return None;
+        }
+        let r = match &i.then_branch.stmts[0] {
+            Stmt::Expr(Expr::Return(r), _) => r,
+            _ => return None,
+        };
+        let (pat, it, c) = (&f.pat, &f.expr, &i.cond);
+        Some(parse_quote! { if (#it).iter().any(|#pat| #c) { #r; } })
+    }
+    fn match_cmp_chain(m: &ExprMatch) -> Option<Expr> {
+        let t = match &*m.expr {
+            Expr::Tuple(t) if t.elems.len() == 2 => t,
+            _ => return None,
+        };
+        let (a, cmp) = (&t.elems[0], &t.elems[1]);
+        let (x, y) = match cmp {
+            Expr::MethodCall(mc) if mc.method == "cmp" && mc.args.len() == 1 => (&*mc.receiver, &mc.args[0]),
+            _ => return None,
+        };
+        let y = match y {
+            Expr::Reference(r) if r.mutability.is_none() => &*r.expr,
+            other => other,
+        };
+        if !is_place(a) || !is_place(x) || !is_place(y) || m.arms.len() != 2 || m.arms.iter().any(|arm| arm.guard.is_some()) {
+            return None;
+        }
+        if !matches!(&m.arms[1].pat, Pat::Wild(_)) {
+            return None;
+        }
+        let pt = match &m.arms[0].pat {
+            Pat::Tuple(pt) if pt.elems.len() == 2 => pt,
+            _ => return None,
+        };
+        let ord = match &pt.elems[1] {
+            Pat::Path(pp) if pp.path.segments.len() == 2 && pp.path.segments[0].ident == "Ordering" => pp.path.segments[1].ident.to_string(),
+            _ => return None,
+        };
+        let p = &pt.elems[0];
+        let (b1, b2) = (&m.arms[0].body, &m.arms[1].body);
+        let test: Expr = match ord.as_str() {
+            "Less" => parse_quote! { #x < #y },
+            "Equal" => parse_quote! { #x == #y },
+            "Greater" => parse_quote! { #x > #y },
+            _ => return None,
+        };
+        Some(parse_quote! { if let #p = #a { if #test { #b1 } else { #b2 } } else { #b2 } })
+    }
+    struct D;
+    impl VisitMut for D {
+        fn visit_block_mut(&mut self, b: &mut Block) {
+            syn::visit_mut::visit_block_mut(self, b);
+            for s in b.stmts.iter_mut() {
+                let n = match s {
+                    Stmt::Expr(Expr::ForLoop(f), _) => for_return_any(f),
+                    _ => None,
+                };
+                if let Some(n) = n {
+                    *s = n;
+                }
+            }
+        }
+        fn visit_expr_mut(&mut self, e: &mut Expr) {
+            syn::visit_mut::visit_expr_mut(self, e);
+            let n = match e {
+                Expr::Match(m) => match_cmp_chain(m),
+                _ => None,
+            };
+            if let Some(n) = n {
+                *e = n;
+            }
+        }
+    }
+    let mut b = b.clone();
+    D.visit_block_mut(&mut b);
+    b
 }
